@@ -28,6 +28,7 @@ sys.path.insert(0, os.path.dirname(os.path.abspath(__file__)))
 import compat  # noqa: E402  (sets sys.path for /repo, installs the six shim)
 from compat import VERIF  # noqa: E402
 import leanio  # noqa: E402
+import linecov  # noqa: E402
 from leanio import ToolFailure  # noqa: E402
 
 ALL_IDS = ['C%02d' % i for i in range(1, 21)]
@@ -102,13 +103,34 @@ def _impl_safe(args):
                 signal.signal(signal.SIGALRM, old)
 
 
+LINE_HITS = set()      # (file, line) of /repo's pybtex package executed by impl() in this run (harness/linecov.py)
+LINECOV = os.environ.get('VERIF_LINECOV', '1') != '0'
+
+
+def _impl_cov(args):
+    """_impl_safe plus the lines of the repository that this process executed for the first time (see linecov.py)."""
+    if not LINECOV:
+        return _impl_safe(args), ()
+    import compat
+    linecov.start(compat.REPO)
+    return _impl_safe(args), linecov.delta()
+
+
 def run_impl(mod, cases):
     name = mod.__name__
     if len(cases) < 3000 or NPROC <= 1 or getattr(mod, 'SERIAL', False):
-        return [_impl_safe((name, c)) for c in cases]
-    ctx = multiprocessing.get_context('fork')
-    with ctx.Pool(NPROC) as pool:
-        return pool.map(_impl_safe, [(name, c) for c in cases], chunksize=max(1, len(cases) // (NPROC * 8)))
+        try:
+            pairs = [_impl_cov((name, c)) for c in cases]
+        finally:
+            linecov.stop()          # the main process goes on to run oracles: only impl() is measured
+    else:
+        ctx = multiprocessing.get_context('fork')
+        with ctx.Pool(NPROC) as pool:
+            pairs = pool.map(_impl_cov, [(name, c) for c in cases], chunksize=max(1, len(cases) // (NPROC * 8)))
+    for _r, d in pairs:
+        if d:
+            LINE_HITS.update(d)
+    return [r for r, _d in pairs]
 
 
 def canon(x):
@@ -483,6 +505,12 @@ def write_evidence(mod, tier, seed, result, t0):
     for k in ('leanchecker', 'build_failures', 'driver_fallback'):
         if k in result:
             cov[k] = result[k]
+    if LINECOV and linecov.available():
+        try:
+            import compat
+            cov['impl_line_coverage'] = linecov.report(linecov.load_property(VERIF, mod.ID), compat.REPO, LINE_HITS)
+        except Exception as e:   # informational only
+            cov['impl_line_coverage'] = {'error': '%s: %s' % (type(e).__name__, e)}
     ev = {'property_id': mod.ID, 'tier': tier, 'seed': seed, 'level': 'proof', 'coverage': cov,
           'assumptions': list(getattr(mod, 'ASSUMPTIONS', [])) + ['model <-> code tie is differential (correspondence) on the explored inputs'],
           'wall_s': round(time.time() - t0, 2), 'violations': result.get('violations', 0)}
